@@ -30,6 +30,11 @@ CLAIMED = {
         text="TLC walks indices 0..300 (2500 thorough) for nine pairings/extensions and checks round trip, range, injectivity, ontoness of the interval enumeration, and bijectivity of the mixed-radix lazy product for all size tuples with product <= 64; Enumeration.tla checks that the skip-pointer enumeration returns every admissible state of 112 boxes (1-d..3-d) exactly once before exhaustion. The real Cantor / Rosenberg-Strong / Szudzik / Pepis-Kalmar / hyperbolic pairings (d = 2, 3), PairingToZd, PairingToZ1d (increasing, decreasing, permuted, repeated, revisiting call orders), lazy_indices_product and StatesManager are run; TLC validates projection-then-pairing and pairing-then-projection (limb-encoded at magnitudes next to perfect squares up to m = 2e8 and cubes up to m = 1e5), every-tuple-once on index blocks, call-order independence, exactly-once enumeration.",
         note="Trusted: TLC, limb sensor. gmpy2 shimmed by exact rationals. Domains without boundary only.",
         ref="5 (C14)"),
+    "C02": dict(
+        technique="TLA+ specs SamplerLaw.tla (abstract law + history independence), Alias.tla, Bst.tla (implementation-shaped refinements) model-checked by TLC for all small integer weight vectors; lattice sweeps and draw histories of every real sampler trace-validated by TLC",
+        text="TLC checks SamplerLaw for every draw order with repetitions on small vectors, and that the Vose alias construction (as coded: two LIFO stacks, both leftover loops) and the implicit-heap cumulative tree induce exactly the target law for every integer weight vector (length <= 5, sum <= 8; zeros, ties, single non-zero entry). Every real sampler (alias, table, binary search tree, Huffman, inversion, adapted tree 1-d and n-d), built directly on all those vectors and through the public factory for every SamplingMethod on atomic chains in 1-d, 2-d, 3-d, is swept over a lattice of uniforms through the single-uniform entry point and through the batch call with the generator scripted, after arbitrary draw histories; TLC validates: count_k * S = N * W_k exactly, never a zero-weight / out-of-grid / origin state, memo never contradicted.",
+        note="Trusted: TLC, atomic measure / table copula stubs (integer masses), scripted generator. Table method judged up to its 2^-24 resolution. Huffman / inversion / adapted trees have no implementation-shaped TLA+ module yet (law-level verdict only).",
+        ref="5 (C02)"),
 }
 
 NOT_APPLICABLE = {
